@@ -132,8 +132,8 @@ type call struct {
 	// MissRelease: the step at which the call left the point right after its cache miss (-1: never got there). A
 	// download that had completely finished before that step cannot be one the call waited for.
 	MissRelease int
-	Owned    int  // downloads it started
-	ctxErr   func() error
+	Owned       int // downloads it started
+	ctxErr      func() error
 }
 
 type result struct {
